@@ -245,8 +245,19 @@ def _run_real(case):
     )
     T = 1.0
     pts = sorted({0.0, T} | {round(rng.uniform(0, T), 6) for _ in range(rng.randint(1, 5))})
-    with jax.disable_jit():
-        sol = solve(cfg["prior"], jnp.asarray(pts), atol=case["tol"], rtol=case["tol"], dt0=case["dt0"], eps=eps)
+    try:
+        with jax.disable_jit():
+            sol = solve(cfg["prior"], jnp.asarray(pts), atol=case["tol"], rtol=case["tol"], dt0=case["dt0"], eps=eps)
+    except record.BudgetExceeded:
+        # a real configuration that needs more than 400 loop iterations between two checkpoints (random controller
+        # parameters can make accepted steps crawl): the partial trace is still judged, the run counts as unfinished
+        Vp, Cp = stepctl.check_trace(log.events, save_at=pts, eps=eps, clip=case["clip"], fmin=params["factor_min"], fmax=params["factor_max"],
+                                     dt0=case["dt0"], result_t=None, result_steps=None, partial=True)
+        obs_p = dict(Cp)
+        obs_p["real_runs_unfinished"] = 1
+        viols_p = [util.viol(rule, msg, tags={"kind": "real", "fact": case["fact"], "strategy": case["strategy"], "partial": True},
+                             witness={"events_around": log.events[max(0, i - 6): i + 3], "save_at": pts}) for rule, msg, i in Vp[:5]]
+        return {"violations": viols_p, "obs": obs_p, "sigs": [], "sample": None}
     V, C = stepctl.check_trace(
         log.events, save_at=pts, eps=eps, clip=case["clip"], fmin=params["factor_min"], fmax=params["factor_max"],
         dt0=case["dt0"], result_t=[float(x) for x in np.asarray(sol.t)],
